@@ -19,10 +19,11 @@ fn key(r: &Rs, cap: usize) -> Key {
     (r.verif_skip_until().min(cap), r.reservoir().iter().position(|&b| b).map(|p| p as i32).unwrap_or(-1))
 }
 
-/// distribution over successor keys of one `add(item)` for a fixed unit value x
-/// (all integer draws enumerated with exact weights)
-fn succ_dist(r: &Rs, item: bool, x: f64, cap: usize, runs: &mut u64, units_seen: &mut usize) -> Result<BTreeMap<Key, (f64, Rs)>, String> {
-    chooser::set_unit_mode(UnitMode::Alphabet(vec![x]));
+/// distribution over successor keys of one `add(item)` with the first `script.len()` unit draws
+/// fixed to the scripted values (all integer draws enumerated with exact weights); also returns
+/// the largest number of unit draws any run made
+fn succ_dist(r: &Rs, item: bool, script: &[f64], cap: usize, runs: &mut u64, units_seen: &mut usize) -> Result<BTreeMap<Key, (f64, Rs)>, String> {
+    chooser::set_unit_mode(UnitMode::Script(script.to_vec()));
     let mut out: BTreeMap<Key, (f64, Rs)> = BTreeMap::new();
     let mut err: Option<String> = None;
     let st = chooser::for_each_run(
@@ -69,29 +70,109 @@ struct Col {
     transitions: u64,
     min_class_width: f64,
     classes: u64,
+    max_units: usize,
     err: Option<(String, String)>,
 }
 
 type Dist = BTreeMap<Key, (f64, Rs)>;
 
-/// all points in (a, b) where the successor distribution changes, located on the real code
-fn refine(a: f64, da: &Dist, b: f64, db: &Dist, eval: &mut dyn FnMut(f64) -> Result<Dist, String>, out: &mut Vec<(f64, Dist)>) -> Result<(), String> {
-    if same(da, db) {
-        return Ok(());
+struct Integ {
+    runs: u64,
+    classes: u64,
+    min_width: f64,
+    max_units: usize,
+}
+
+/// Exact successor distribution of one add(): the unit draws are integrated one after the other
+/// (in program order). With the first `script.len()` unit draws fixed, the distribution as a
+/// function of the next unit draw x is piecewise constant; it is scanned on a grid and every cell
+/// whose end points disagree is bisected recursively on the real code, so each class
+/// contributes its interval length. Nested unit draws use a coarse grid (the bisection finds
+/// every class of a monotone draw regardless of the grid).
+fn integrate(r: &Rs, item: bool, cap: usize, script: &mut Vec<f64>, grid: usize, st: &mut Integ) -> Result<Dist, String> {
+    let mut units = 0usize;
+    let d = succ_dist(r, item, script, cap, &mut st.runs, &mut units)?;
+    st.max_units = st.max_units.max(units);
+    if units <= script.len() {
+        return Ok(d);
     }
-    if b - a < 1e-13 {
-        out.push((0.5 * (a + b), db.clone()));
-        return Ok(());
+    if script.len() >= 3 {
+        eprintln!("MACHINERY: C05 engine limitation: add() made more than 3 unit draws in one call");
+        std::process::exit(2);
     }
-    let m = 0.5 * (a + b);
-    let dm = eval(m)?;
-    refine(a, da, m, &dm, eval, out)?;
-    refine(m, &dm, b, db, eval, out)
+    let g = if script.is_empty() { grid } else { 64 };
+    let mut eval = |x: f64, st: &mut Integ| -> Result<Dist, String> {
+        script.push(x);
+        let d = integrate(r, item, cap, script, grid, st);
+        script.pop();
+        d
+    };
+    // grid scan + recursive bisection
+    fn refine2(a: f64, da: &Dist, b: f64, db: &Dist, eval: &mut dyn FnMut(f64, &mut Integ) -> Result<Dist, String>, st: &mut Integ, out: &mut Vec<(f64, Dist)>) -> Result<(), String> {
+        if same(da, db) {
+            return Ok(());
+        }
+        if b - a < 1e-13 {
+            out.push((0.5 * (a + b), db.clone()));
+            return Ok(());
+        }
+        let m = 0.5 * (a + b);
+        let dm = eval(m, st)?;
+        refine2(a, da, m, &dm, eval, st, out)?;
+        refine2(m, &dm, b, db, eval, st, out)
+    }
+    let mut breaks: Vec<(f64, Dist)> = vec![];
+    // the two end points of [0,1) are null sets: a panic exactly there (e.g. u == 1.0 from an
+    // open-closed draw) does not change any probability and is C18's business, not C05's
+    let dl = match eval(0.0, st) {
+        Ok(d) => d,
+        Err(_) => eval(2f64.powi(-40), st)?,
+    };
+    let x0 = 0.5 / g as f64;
+    let d0 = eval(x0, st)?;
+    refine2(0.0, &dl, x0, &d0, &mut eval, st, &mut breaks)?;
+    let mut prev_x = x0;
+    let mut prev_d = d0;
+    for m in 1..g {
+        let x = (m as f64 + 0.5) / g as f64;
+        let dx = eval(x, st)?;
+        refine2(prev_x, &prev_d, x, &dx, &mut eval, st, &mut breaks)?;
+        prev_x = x;
+        prev_d = dx;
+    }
+    let mut xr = 1.0 - 2f64.powi(-53);
+    let dr = match eval(xr, st) {
+        Ok(d) => d,
+        Err(_) => {
+            xr = 1.0 - 2f64.powi(-40);
+            eval(xr, st)?
+        }
+    };
+    refine2(prev_x, &prev_d, xr, &dr, &mut eval, st, &mut breaks)?;
+    // mixture with interval lengths as weights
+    let mut out: Dist = BTreeMap::new();
+    let mut add = |d: &Dist, width: f64, out: &mut Dist| {
+        for (kk, (w, c)) in d.iter() {
+            out.entry(*kk).and_modify(|e| e.0 += w * width).or_insert((w * width, c.clone()));
+        }
+    };
+    let mut lo = 0.0;
+    let mut cur = dl;
+    for (bx, dn) in breaks {
+        st.min_width = st.min_width.min(bx - lo);
+        st.classes += 1;
+        add(&cur, bx - lo, &mut out);
+        lo = bx;
+        cur = dn;
+    }
+    st.classes += 1;
+    add(&cur, 1.0 - lo, &mut out);
+    Ok(out)
 }
 
 fn run_kt(k: usize, n_max: usize, grid: usize, t: usize) -> Col {
     let cap = n_max + 1;
-    let mut col = Col { k, t, p: vec![0.0; n_max + 1], leaf_runs: 0, lumped_states: 0, transitions: 0, min_class_width: 1.0, classes: 0, err: None };
+    let mut col = Col { k, t, p: vec![0.0; n_max + 1], leaf_runs: 0, lumped_states: 0, transitions: 0, min_class_width: 1.0, classes: 0, max_units: 0, err: None };
     let mut layer: Dist = BTreeMap::new();
     let init: Rs = ReservoirSampling::new(k, ChoiceRng);
     layer.insert(key(&init, cap), (1.0, init));
@@ -100,77 +181,23 @@ fn run_kt(k: usize, n_max: usize, grid: usize, t: usize) -> Col {
         let mut next: Dist = BTreeMap::new();
         for (_k0, (mass, r)) in layer.iter() {
             col.lumped_states += 1;
-            let units_c = std::cell::Cell::new(0usize);
-            let runs_c = std::cell::Cell::new(0u64);
-            let mut eval = |x: f64| {
-                let (mut ru, mut un) = (0u64, 0usize);
-                let d = succ_dist(r, item, x, cap, &mut ru, &mut un);
-                runs_c.set(runs_c.get() + ru);
-                units_c.set(units_c.get().max(un));
-                d
-            };
-            let x0 = 0.5 / grid as f64;
-            let d0 = match eval(x0) {
+            let mut script: Vec<f64> = vec![];
+            let mut st = Integ { runs: 0, classes: 0, min_width: 1.0, max_units: 0 };
+            let dist = match integrate(r, item, cap, &mut script, grid, &mut st) {
                 Ok(d) => d,
                 Err(e) => {
                     col.err = Some((format!("reservoir(k={}) add fails", k), format!("n = {}: {}", n, e)));
                     return col;
                 }
             };
-            let acc = |dist: &Dist, width: f64, next: &mut Dist, tr: &mut u64| {
-                for (kk, (w, c)) in dist.iter() {
-                    *tr += 1;
-                    next.entry(*kk).and_modify(|e| e.0 += mass * w * width).or_insert((mass * w * width, c.clone()));
-                }
-            };
-            if units_c.get() == 0 {
-                acc(&d0, 1.0, &mut next, &mut col.transitions);
-                col.leaf_runs += runs_c.get();
-                continue;
+            col.leaf_runs += st.runs;
+            col.classes += st.classes;
+            col.min_class_width = col.min_class_width.min(st.min_width);
+            col.max_units = col.max_units.max(st.max_units);
+            for (kk, (w, c)) in dist.iter() {
+                col.transitions += 1;
+                next.entry(*kk).and_modify(|e| e.0 += mass * w).or_insert((mass * w, c.clone()));
             }
-            if units_c.get() > 1 {
-                // not a verdict: this engine locates the outcome classes of ONE unit draw per add
-                eprintln!("MACHINERY: C05 engine limitation: add() made {} unit draws in one call (k={}, n={}); the exact-interval method supports one", units_c.get(), k, n);
-                std::process::exit(2);
-            }
-            // grid scan + recursive bisection of every cell whose end points differ
-            let mut breaks: Vec<(f64, Dist)> = vec![];
-            let res = (|| -> Result<Dist, String> {
-                let dl = eval(0.0)?;
-                refine(0.0, &dl, x0, &d0, &mut eval, &mut breaks)?;
-                let mut prev_x = x0;
-                let mut prev_d = d0.clone();
-                for m in 1..grid {
-                    let x = (m as f64 + 0.5) / grid as f64;
-                    let d = eval(x)?;
-                    refine(prev_x, &prev_d, x, &d, &mut eval, &mut breaks)?;
-                    prev_x = x;
-                    prev_d = d;
-                }
-                let xr = 1.0 - 2f64.powi(-53);
-                let dr = eval(xr)?;
-                refine(prev_x, &prev_d, xr, &dr, &mut eval, &mut breaks)?;
-                Ok(dl)
-            })();
-            let dl = match res {
-                Ok(d) => d,
-                Err(e) => {
-                    col.err = Some((format!("reservoir(k={}) add fails", k), format!("n = {}: {}", n, e)));
-                    return col;
-                }
-            };
-            let mut lo = 0.0;
-            let mut cur = dl;
-            for (bx, d) in breaks {
-                col.min_class_width = col.min_class_width.min(bx - lo);
-                col.classes += 1;
-                acc(&cur, bx - lo, &mut next, &mut col.transitions);
-                lo = bx;
-                cur = d;
-            }
-            col.classes += 1;
-            acc(&cur, 1.0 - lo, &mut next, &mut col.transitions);
-            col.leaf_runs += runs_c.get();
         }
         let total: f64 = next.values().map(|v| v.0).sum();
         if (total - 1.0).abs() > 1e-9 {
